@@ -153,6 +153,17 @@ def run(chk):
         descs[x["idx"]] = x
     os.remove(res.out)
     ds = [descs[k] for k in sorted(descs)]
+    for order in ("forward", "reverse"):
+        run_order(chk, ds if order == "forward" else list(reversed(ds)), order)
+    chk.cov["exhaustive"] = True
+    chk.cov["rule"] = ("every type of Reflect.tla's universe (integers, floats, bool, char, str, pointers, slices, "
+                       "arrays, structs, enums, optionals incl. nested ones, error unions, distincts), reflected in "
+                       "forward and in reverse order (type ids are handed out in order of first use): run-time "
+                       "description through core.meta, member / element address differences on real memory, size / "
+                       "align / stride inside comptime, the full type-equality matrix, `any` of 7 scalar types")
+
+
+def run_order(chk, ds, order):
     N = Names()
     tys = [N.texpr(d["t"]) for d in ds]
     n = len(ds)
@@ -193,9 +204,9 @@ def run(chk):
     L.append("}")
     src = PRE + "\n".join(N.decls) + "\n" + "\n".join(L) + "\n"
     job = {"id": "refl", "files": {"main.capy": src}, "run": True, "timeout_ms": 120000, "mod_dir": "repo"}
-    r = common.run_batch([job], chk.wd, "refl", par=1)[0]
+    r = common.run_batch([job], chk.wd, "refl_" + order, par=1)[0]
     if r["has_errors"] or r.get("panic") or not r.get("run") or r["run"].get("status") != 0:
-        chk.violation({"kind": "program-not-run"},
+        chk.violation({"kind": "program-not-run", "order": order},
                       {"diagnostics": [(d["kind"], d["header"], d["text"][:200]) for d in r["diags"] if d["sev"] == "error"][:6],
                        "panic": r.get("panic"), "run": json.dumps(r.get("run"))[:300], "source": src[-3000:],
                        "note": "the reflection program was rejected or did not run to completion"})
@@ -218,17 +229,13 @@ def run(chk):
             chk.violation(sig, {"what": kind, "type": T, "type_term": None if kind != "desc" else ds[tys.index(T)]["t"],
                                 "prescribed": w, "observed": got, "decls": N.decls,
                                 "how": "line %d of the reflection program's output" % (k + 1)})
-    for k in (3, 27, n + 2, len(want) - 3):
-        chk.sample({"check": want[k][0], "type": want[k][1], "prescribed": want[k][2], "observed": lines[k] if k < len(lines) else None})
-    chk.cov["traces_validated_against_impl"] = nok
-    chk.cov["evaluations"] = len(want)
-    chk.cov["distinct_nontrivial"] = len({w for w in want})
+    for k in (3, n + 2):
+        chk.sample({"order": order, "check": want[k][0], "type": want[k][1], "prescribed": want[k][2],
+                    "observed": lines[k] if k < len(lines) else None})
+    chk.cov["traces_validated_against_impl"] += nok
+    chk.cov["evaluations"] += len(want)
+    chk.cov["distinct_nontrivial"] += len({w for w in want})
     chk.cov["types"] = n
-    chk.cov["exhaustive"] = True
-    chk.cov["rule"] = ("every type of Reflect.tla's universe (45 types: integers, floats, bool, char, str, pointers, slices, "
-                       "arrays, 7 structs, 4 enums, optionals, error unions, distincts): run-time description through "
-                       "core.meta, member / element address differences on real memory, size / align / stride inside "
-                       "comptime, the full type-equality matrix, `any` of 7 scalar types")
 
 
 def replay(path):
